@@ -237,10 +237,13 @@ func (t *Target) WaitUntilHealthy(timeout time.Duration) bool {
 // HealthCheckConsumer
 
 func (t *Target) HealthCheckCompleted(success bool) {
-	previousState := t.state
-	newState := t.state
+	var previousState, newState TargetState
 
 	t.withInflightLock(func() {
+		// Read the state while holding the lock: it is also written by
+		// updateState (draining, restored state) from other goroutines.
+		previousState = t.state
+
 		switch success {
 		case true:
 			switch t.state {
